@@ -43,7 +43,9 @@ CHECKS = {
         text='One case is one abstract template printed in 4-7 spellings (<dtml->, <!--#-->, with /tag and endtag closers, %()[ ]), '
              'entities, varied white space, quoting, attribute case, end-tag arguments); TLC checks that all spellings compile to one '
              'normal form; the normalised _v_blocks of every real compilation must be that normal form, and renderings under three '
-             'namespaces with logging callables must agree pairwise in text / exception and call log.',
+             'namespaces with logging callables must agree pairwise in text / exception and call log; malformed templates and foreign directive '
+             'names must be rejected in all spellings alike; two templates compiled by two threads at once (one preempted at sampled lines by '
+             'the deterministic scheduler) still compile, in every spelling, to the program the other spellings give.',
         note='Random abstract templates over every tag and option plus each option alone; expressions from a pool printable in all syntaxes.',
         ref='DESIGN.md section 4 C07'),
     'C18': dict(engine='DTConc',
@@ -67,21 +69,27 @@ CHECKS = {
              'variables, statistics, sort keys, fmt=method, url, sub-templates, dtml-tree branches) x {public, underscore-private, '
              'guard-denied} x nine enclosing contexts (with only, let, in, try, sub-template ...) and every subset of refused elements '
              'is rendered with a recording guard; TLC replays each trace (mediated / released / unmediated reads, table Expect, '
-             'ShownOnlyIfReleased, ItemsOK); a flow is reported only when two runs differing in the refused values differ or show a marker.',
+             'ShownOnlyIfReleased, ItemsOK, GrantedOK); a flow is reported only when two runs differing in the refused values differ or show a marker; '
+             'a guard that grants an attribute in one context and refuses it in the next (the object being wrapped twice in one rendering) is '
+             'asked by every wrapper: the value is shown at most as often as it was granted; a refused branches attribute of a tree node hides '
+             'everything below the node (first rendering, expand_all, click) also for templates used without guards before.',
         note='Known finding F9 (per-item variables, statistics, sort keys, url read raw); _.getattr / _.hasattr and o[i] inside '
              'expressions are mediated by AccessControl\'s own guards in this environment, only the flow test applies there.',
         ref='DESIGN.md section 4 C05'),
     'C11': dict(
         engine='DTBatch',
         technique='TLA+ model (DTBatch) checked by TLC; exported behaviours replayed into dtml-in; '
-                  'recorded renderings validated by TLC (ObsBatch)',
+                  'recorded renderings validated by TLC (ObsBatch); TLA+ machine of sequence-query (DTQuery) checked by TLC and replayed, '
+                  'its links followed in the real code',
         text='TLC exhaustively explores the DTBatch machine (window arithmetic of opt/renderwb, '
              'look-ahead, navigation by following announced links) over the whole parameter space of '
              'the tier and checks every clause of the property as an invariant; every explored '
              'behaviour is replayed into the real dtml-in and compared row by row; departures, a '
              'sample, random larger parameters and every navigation chain recorded from the real code '
              'are validated by TLC against the same clauses; the batch lists (next-batches / previous-batches) are '
-             'specified as repeated look-ahead (InvNextList, InvPrevList, InvListsAgree), replayed and validated likewise.',
+             'specified as repeated look-ahead (InvNextList, InvPrevList, InvListsAgree), replayed and validated likewise; '
+             'sequence-query (machine DTQuery: Strip / Wrap / Cut / Finish with clauses Q_Shape, Q_Others, Q_StartGone, Q_Stable) is '
+             'replayed into the real tag and the links built from it are followed until every element has been shown.',
         note='Sequences are lists/tuples of ints, parameters ints or numeric strings; announced '
              'neighbours are specified modulo clamping into 1..L; TLC and the JSON bridge are trusted.',
         ref='DESIGN.md section 4 C11'),
